@@ -188,6 +188,7 @@ var propImports = map[string][]imp{
 		{"C10.12/E10c", "C19", "a queue that a goroutine re-fills under the socket lock has room for it: otherwise that goroutine blocks holding the lock and Close never returns", []string{"C19.2/E10c"}},
 	},
 	"C11": {
+		{"C11.20/unique-sites", "C17", "a message that may be shared by reference count is copied before the library writes to it: two sockets sending the same message otherwise read and rewrite one header without synchronisation", []string{"C17.6/unique-sites"}},
 		{"C11.19/deadline-per-call", "C18", "each blocked call waits on a deadline of its own: a timer shared by the callers of one socket fires for one of them only", []string{"C18.1/deadline-select"}},
 		{"C11.18/no-wait-under-lock", "C12", "never deadlock: no wait for the network, a channel or an application callback while a library lock is held (one silent peer would block every call that needs the lock)", []string{"C12.2/E4"}},
 		{"C11.17/req-timers", "C18", "the library's own timer goroutines act only on the request they were armed for: a send deadline that fires after its send completed does not cancel the request that is waiting for its reply (Recv would return a result no sequential use allows)", []string{"C18.3/req-timers"}},
